@@ -325,11 +325,16 @@ fn pick_action(rng: &mut Rng, held: &[Held], names: &[u64], core: bool, ev_tags:
         return Action::DropReq(held[i].tag, held[i].val, occ_of(held, i));
     }
     if r < 94 && !names.is_empty() { return Action::Abort(*rng.pick(names)); }
-    if r < 95 { return Action::Resolve(77, 0, 0, 1); } // a request that does not exist
+    if r >= 97 { return Action::Resolve(77, 0, 0, 1); } // a request that does not exist
     if core { Action::Event(99, 0) } else { match rng.below(3) { 0 => Action::Effects, 1 => Action::Events, _ => Action::IsDone } }
 }
 
-fn run_direct(c: &Cmd, rng: &mut Rng, names: &[u64], nsteps: usize, fixed: Option<&[Action]>) -> (Vec<Action>, Vec<String>) {
+#[cfg(crux_verif)]
+fn live(c: &C) -> usize { c.verif_live_tasks() }
+#[cfg(not(crux_verif))]
+fn live(_c: &C) -> usize { 0 }
+
+fn run_direct(c: &Cmd, rng: &mut Rng, names: &[u64], nsteps: usize, fixed: Option<&[Action]>, drain: bool) -> (Vec<Action>, Vec<String>) {
     let aborts: Aborts = Default::default();
     let mut cmd = build(c, &Env::default(), &aborts);
     let mut held: Vec<Held> = vec![];
@@ -340,10 +345,11 @@ fn run_direct(c: &Cmd, rng: &mut Rng, names: &[u64], nsteps: usize, fixed: Optio
                 else if i < 3 { [Action::Effects, Action::Events, Action::IsDone][i].clone() }
                 else if i >= total - 3 { [Action::Effects, Action::Events, Action::IsDone][i - (total - 3)].clone() }
                 else { pick_action(rng, &held, names, false, &[]) };
+        if fixed.is_none() && i >= 3 && i < total - 3 && held.is_empty() && names.is_empty() && i % 3 != 0 { continue; }
         let o = match &a {
             Action::Effects => { let es: Vec<Eff> = cmd.effects().collect(); format!("OEffects {}", oeffs(es, &mut held)) }
             Action::Events => { let es: Vec<Ev> = cmd.events().collect(); format!("OEvents {}", oevs(&es)) }
-            Action::IsDone => format!("ODone {}", if cmd.is_done() { "true" } else { "false" }),
+            Action::IsDone => { let d = cmd.is_done(); format!("ODone {} {}", if d { "true" } else { "false" }, live(&cmd)) }
             Action::Resolve(t, v, o, out) => match find(&held, *t, *v, *o) {
                 Some(i) if held[i].req.is_some() => format!("OResolve {}", rcode(held[i].req.as_mut().unwrap().resolve(*out))),
                 _ => "OResolve 3".into(),
@@ -353,6 +359,20 @@ fn run_direct(c: &Cmd, rng: &mut Rng, names: &[u64], nsteps: usize, fixed: Optio
             Action::Event(..) => "ONone".into(),
         };
         acts.push(a); obs.push(o);
+    }
+    if fixed.is_none() && drain {
+        // drain phase: drop every outstanding request until nothing new appears, then the command must be done
+        for _round in 0..12 {
+            let es: Vec<Eff> = cmd.effects().collect();
+            acts.push(Action::Effects); obs.push(format!("OEffects {}", oeffs(es, &mut held)));
+            let evs: Vec<Ev> = cmd.events().collect();
+            acts.push(Action::Events); obs.push(format!("OEvents {}", oevs(&evs)));
+            let livei: Vec<usize> = held.iter().enumerate().filter(|(_, h)| h.req.is_some()).map(|(i, _)| i).collect();
+            if livei.is_empty() { break; }
+            for i in livei { acts.push(Action::DropReq(held[i].tag, held[i].val, occ_of(&held, i))); obs.push("ONone".into()); held[i].req = None; }
+        }
+        let d = cmd.is_done();
+        acts.push(Action::IsDone); obs.push(format!("ODone {} {}", if d { "true" } else { "false" }, live(&cmd)));
     }
     (acts, obs)
 }
@@ -384,10 +404,12 @@ fn run_core(hs: &[(u64, Cmd)], rng: &mut Rng, names: &[u64], nsteps: usize, fixe
     let mut held: Vec<Held> = vec![];
     let mut acts = vec![]; let mut obs = vec![];
     let total = fixed.map(|f| f.len()).unwrap_or(nsteps + 2);
+    let probe_all = rng.coin(1, 2);
     for i in 0..total {
         let a = if let Some(f) = fixed { f[i].clone() }
                 else if i == 0 { Action::Event(ev_tags[0], rng.below(4)) }
                 else if i == total - 1 { Action::Event(99, 0) }
+                else if i > 0 && probe_all && !matches!(acts[i - 1], Action::Event(99, 0)) { Action::Event(99, 0) }
                 else { pick_action(rng, &held, names, true, &ev_tags) };
         if std::env::var("RT_DEBUG").is_ok() { eprintln!("  {}", a.coq()); }
         let o = match &a {
@@ -414,6 +436,7 @@ fn run_core(hs: &[(u64, Cmd)], rng: &mut Rng, names: &[u64], nsteps: usize, fixe
 fn json_str(s: &str) -> String { format!("\"{}\"", s.replace('\\', "\\\\").replace('"', "\\\"")) }
 
 fn main() {
+    std::panic::set_hook(Box::new(|_| {}));
     let args: Vec<String> = std::env::args().collect();
     let seed: u64 = args.get(1).and_then(|s| s.parse().ok()).unwrap_or(1);
     let count: usize = args.get(2).and_then(|s| s.parse().ok()).unwrap_or(100);
@@ -425,15 +448,16 @@ fn main() {
         let depth = match g.rng.below(10) { 0..=2 => 0, 3..=5 => 1, 6..=7 => 2, 8 => 3, _ => 4 };
         let nsteps = 4 + g.rng.below(14) as usize;
         if only.is_some() && only != Some(idx) { continue; }
-        let line = if !core_host {
+        let line = std::panic::catch_unwind(std::panic::AssertUnwindSafe(|| if !core_host {
             let c = g.cmd(depth, 0);
             let names = g.names.clone();
             let mut rng = g.rng.clone();
-            let (acts, obs) = run_direct(&c, &mut rng, &names, nsteps, None);
+            let drained = idx % 2 == 0;
+            let (acts, obs) = run_direct(&c, &mut rng, &names, nsteps, None, drained);
             let mut h = HashMap::new(); c.hist(&mut h);
             let mut ah: HashMap<&str, u64> = HashMap::new(); for a in &acts { *ah.entry(a.name()).or_default() += 1; }
-            format!("{{\"idx\":{},\"seed\":{},\"host\":\"direct\",\"prog\":{},\"handlers\":\"[]\",\"acts\":{},\"impl\":{},\"size\":{},\"depth\":{},\"hist\":{:?},\"ahist\":{:?}}}",
-                idx, seed, json_str(&c.coq()), json_str(&coq_list(acts.iter().map(|a| a.coq()).collect())), json_str(&coq_list(obs)), c.size(), c.depth(), h, ah)
+            format!("{{\"idx\":{},\"seed\":{},\"drained\":{},\"host\":\"direct\",\"prog\":{},\"handlers\":\"[]\",\"acts\":{},\"impl\":{},\"size\":{},\"depth\":{},\"hist\":{:?},\"ahist\":{:?}}}",
+                idx, seed, drained, json_str(&c.coq()), json_str(&coq_list(acts.iter().map(|a| a.coq()).collect())), json_str(&coq_list(obs)), c.size(), c.depth(), h, ah)
         } else {
             // handlers: event tags 1..=n each mapped to a command; emitted events may hit them
             let n = 1 + g.rng.below(3);
@@ -448,10 +472,13 @@ fn main() {
             let mut h = HashMap::new(); for (_, c) in &hs { c.hist(&mut h); }
             let mut ah: HashMap<&str, u64> = HashMap::new(); for a in &acts { *ah.entry(a.name()).or_default() += 1; }
             let hcoq = coq_list(hs.iter().map(|(t, c)| format!("({}, {})", t, c.coq())).collect());
-            format!("{{\"idx\":{},\"seed\":{},\"host\":\"core\",\"prog\":\"c_done\",\"handlers\":{},\"acts\":{},\"impl\":{},\"size\":{},\"depth\":{},\"hist\":{:?},\"ahist\":{:?}}}",
+            format!("{{\"idx\":{},\"seed\":{},\"drained\":false,\"host\":\"core\",\"prog\":\"c_done\",\"handlers\":{},\"acts\":{},\"impl\":{},\"size\":{},\"depth\":{},\"hist\":{:?},\"ahist\":{:?}}}",
                 idx, seed, json_str(&hcoq), json_str(&coq_list(acts.iter().map(|a| a.coq()).collect())), json_str(&coq_list(obs)),
                 hs.iter().map(|(_, c)| c.size()).sum::<usize>(), hs.iter().map(|(_, c)| c.depth()).max().unwrap_or(0), h, ah)
-        };
-        println!("{}", line);
+        }));
+        match line {
+            Ok(l) => println!("{}", l),
+            Err(_) => println!("{{\"idx\":{},\"seed\":{},\"drained\":false,\"host\":\"{}\",\"prog\":\"c_done\",\"handlers\":\"[]\",\"acts\":\"[AIsDone]\",\"impl\":\"[OPanic]\",\"size\":0,\"depth\":0,\"hist\":{{}},\"ahist\":{{}},\"panic\":true}}", idx, seed, if core_host { "core" } else { "direct" }),
+        }
     }
 }
